@@ -267,6 +267,21 @@ def rand_frame(r, ftype=None, rule=None, upid=None, tfdz_len=None, iz=-1, ocf=No
     fecf = r.choice((None, 2, 4)) if fecf == -1 else fecf
     ocf = (r.getrandbits(1) if ocf is None else ocf) and ftype != "truncated"
     tfdz_len = r.choice((0, 1, 2, 17, 1000)) if tfdz_len is None else tfdz_len
+    d = _rand_frame_fields(r, ftype, rule, upid, tfdz_len, iz, ocf, fecf, n)
+    c = r.random()
+    if c < 0.12:
+        # coincidences of extreme values: every small field at its maximum (VCID 63, MAP 15, idle protocol id 31, pointer 0xFFFF,
+        # SCID 0xFFFF) or at its minimum at the same time - the combinations the standard reserves for idle / fill frames
+        hi = c < 0.06
+        d.update(scid=0xFFFF if hi else 0, vcid=63 if hi else 0, map_id=15 if hi else 0, upid=31 if hi else 0, src_dest=int(hi), bypass=int(hi), pcc=int(hi))
+        if d["ptr"] is not None:
+            d["ptr"] = 0xFFFF if hi else 0
+        if r.random() < 0.5:
+            d["ptr"] = None if d["ptr"] is None else r.choice((0xFFFF, 0xFFFE, 0x07FF, 0))
+    return d
+
+
+def _rand_frame_fields(r, ftype, rule, upid, tfdz_len, iz, ocf, fecf, n):
     return {"ftype": ftype, "rule": rule, "upid": r.choice(UPIDS) if upid is None else upid, "tfdz": rand_bytes(r, tfdz_len).hex(),
             "ptr": r.getrandbits(16) if ftype == "fixed" else None, "iz": None if iz is None else rand_bytes(r, iz).hex(), "ocf": rand_bytes(r, 4).hex() if ocf else None,
             "fecf": None if fecf is None else rand_bytes(r, fecf).hex(), "scid": r.getrandbits(16), "src_dest": r.getrandbits(1), "vcid": r.getrandbits(6), "map_id": r.getrandbits(4),
